@@ -18,13 +18,13 @@
 EXTENDS Integers, Sequences, FiniteSets, SequencesExt, TLC
 
 Alphabet(fmt) ==
-  CASE fmt = "srt" -> {"idx", "junk", "blank", "timing", "timing-noend", "timing-nostart", "timing-bad", "arrow", "text", "text-tags", "text-arrow", "bom"}
+  CASE fmt = "srt" -> {"idx", "junk", "blank", "timing", "timing-noend", "timing-nostart", "timing-bad", "arrow", "text", "text-tags", "text-arrow", "bom", "timing-2arrows"}
     [] fmt = "vtt" -> {"header", "header-bad", "blank", "note", "note-bare", "style", "css", "css-open", "region", "region-bad", "id", "timing",
-                       "timing-noend", "timing-nostart", "timing-badset", "timing-unkregion", "tsmap", "tsmap-bad", "text", "text-unbalanced", "text-v", "text-ts"}
+                       "timing-noend", "timing-nostart", "timing-badset", "timing-unkregion", "tsmap", "tsmap-bad", "text", "text-unbalanced", "text-v", "text-ts", "timing-2arrows"}
     [] fmt = "ssa" -> {"sec-info", "sec-styles", "sec-events", "sec-unknown", "info", "info-badnum", "comment", "junk", "colon-only", "format-style", "format-event",
                        "format-empty", "style", "style-short", "style-long", "style-badnum", "dialogue", "dialogue-short", "dialogue-badtime", "comment-event", "blank"}
     [] fmt = "ttml" -> {"p", "p-nobegin", "p-noend", "p-notimes", "p-badtime", "p-unkstyle", "p-unkregion", "p-span", "p-span-unkstyle", "p-br", "p-nested", "p-empty",
-                        "style", "style-unkparent", "style-selfparent", "region", "region-unkstyle", "meta", "junk-element"}
+                        "style", "style-unkparent", "style-selfparent", "region", "region-unkstyle", "meta", "junk-element", "style-1token"}
 
 RECURSIVE SeqsUpTo(_, _)
 SeqsUpTo(A, k) == IF k = 0 THEN {<<>>} ELSE LET S == SeqsUpTo(A, k - 1) IN S \cup {Append(s, a) : s \in {x \in S : Len(x) = k - 1}, a \in A}
